@@ -1,5 +1,6 @@
 import Eru.CpuMem.ProofsNumaMem
 import Eru.CpuMem.ProofsOrder
+import Eru.CpuMem.ProofsRealloc
 /-
 C04 — allocations never overcommit a node's CPU cores or memory.
 Property theorems only; helper lemmas live in Eru/CpuMem/Proofs*.lean.
@@ -151,6 +152,27 @@ theorem realloc_numa_memory (info : NodeInfo) (B maxShare : Int) (origin w' : Wo
         · cases h; simp at hn
         all_goals cases h
     all_goals cases h
+
+/-- **realloc_commit_validate** (re-allocation counterpart of `commit_validate`): on a valid node that
+    is still valid with the workload's recorded resources given back (true whenever those resources are
+    part of the node's usage), committing the delta resource of a successful bound `CalculateRealloc`
+    (`usage += reallocDelta`, what the cluster does through `SetNodeResourceUsage`) leaves a node that
+    `Validate` accepts — CPU clause and NUMA-memory clause (oracle clause `C04:commit:realloc`). -/
+theorem realloc_commit_validate (info : NodeInfo) (B maxShare : Int) (origin : Workload) (raw : RawReq)
+    (order : List String) (w' : Workload) (hB : 1 ≤ B) (hwf : WF info) (huk : info.use.cpuMap.keys.Nodup)
+    (hcm : info.cap.numaMem.keys.Nodup) (hum : info.use.numaMem.keys.Nodup)
+    (hok : origin.cpuMap.keys.Nodup) (honm : origin.numaMem.keys.Nodup) (hord : order.Nodup)
+    (hvgb : (givenBack info origin).validate = true) (hbind : (reallocReq origin raw).bind = true)
+    (h : calculateRealloc info B maxShare origin raw order = .ok w') :
+    ∃ info'', commitRealloc info origin w' = .ok info'' ∧ info''.validate = true :=
+  Eru.CpuMem.realloc_commit_validate info B hB maxShare origin raw order w' hwf.1 hwf.2 huk hcm hum hok honm hord hvgb hbind h
+
+/-- satisfiable: the workload on core 0 of NUMA node n0 grows by 5 memory and stays -/
+example : (match calculateRealloc exampleNode 100 (-1)
+      { cpuReq := 500, cpuLim := 500, memReq := 10, memLim := 10, cpuMap := [("3", 50)], numa := "n1", numaMem := [("n1", 0)] }
+      { bind := false, keepBind := true, cpuReq := 0, cpuLim := 0, memReq := 5, memLim := 5 } ["n1", "n0"] with
+    | .ok w' => (commitRealloc exampleNode { cpuReq := 500, cpuLim := 500, memReq := 10, memLim := 10, cpuMap := [("3", 50)], numa := "n1", numaMem := [("n1", 0)] } w').isOk
+    | _ => false) = true := by decide
 
 /-- common part of the two commit theorems for bound deployments -/
 theorem commit_bound (info : NodeInfo) (B maxShare count : Int) (raw w : RawReq) (order : List String) (ws : List Workload)
